@@ -47,9 +47,15 @@ func CheckDataRefs(reg template.Registry) (err error) {
 type templateChecker struct {
 	registry template.Registry
 	params   []string
-	letVars  []string
-	forVars  []string
-	usedKeys []string
+	locals   []*local // {let} and loop variables in scope, innermost last
+	usedKeys []string // params referenced (by a data reference or data="all")
+}
+
+// local is a {let} or loop variable that is in scope.
+type local struct {
+	name  string
+	isLet bool
+	used  bool
 }
 
 func newTemplateChecker(reg template.Registry, tpl template.Template) *templateChecker {
@@ -57,7 +63,7 @@ func newTemplateChecker(reg template.Registry, tpl template.Template) *templateC
 	for _, param := range tpl.Doc.Params {
 		paramNames = append(paramNames, param.Name)
 	}
-	return &templateChecker{reg, paramNames, nil, nil, nil}
+	return &templateChecker{reg, paramNames, nil, nil}
 }
 
 func (tc *templateChecker) checkTemplate(node ast.Node) {
@@ -66,12 +72,12 @@ func (tc *templateChecker) checkTemplate(node ast.Node) {
 		// the variable is visible after the command, not in its own definition
 		tc.checkLet(node.Name)
 		tc.checkTemplate(node.Expr)
-		tc.letVars = append(tc.letVars, node.Name)
+		tc.locals = append(tc.locals, &local{name: node.Name, isLet: true})
 		return
 	case *ast.LetContentNode:
 		tc.checkLet(node.Name)
 		tc.checkTemplate(node.Body)
-		tc.letVars = append(tc.letVars, node.Name)
+		tc.locals = append(tc.locals, &local{name: node.Name, isLet: true})
 		return
 	case *ast.CallNode:
 		tc.checkCall(node)
@@ -79,9 +85,10 @@ func (tc *templateChecker) checkTemplate(node ast.Node) {
 		// the loop variable is visible in the loop body only: not in the list
 		// expression, not in {ifempty} and not after the loop
 		tc.checkTemplate(node.List)
-		tc.forVars = append(tc.forVars, node.Var)
+		var initialLocals = len(tc.locals)
+		tc.locals = append(tc.locals, &local{name: node.Var})
 		tc.checkTemplate(node.Body)
-		tc.forVars = tc.forVars[:len(tc.forVars)-1]
+		tc.locals = tc.locals[:initialLocals]
 		if node.IfEmpty != nil {
 			tc.checkTemplate(node.IfEmpty)
 		}
@@ -171,78 +178,58 @@ func (tc *templateChecker) checkCall(node *ast.CallNode) {
 }
 
 func (tc *templateChecker) recurse(parent ast.ParentNode) {
-	var initialForVars = len(tc.forVars)
-	var initialLetVars = len(tc.letVars)
-	var initialUsedKeys = len(tc.usedKeys)
+	var initialLocals = len(tc.locals)
 	for _, child := range parent.Children() {
 		tc.checkTemplate(child)
-	}
-	tc.forVars = tc.forVars[:initialForVars]
-
-	// quick return if there were no {let}s
-	if initialLetVars == len(tc.letVars) {
-		return
-	}
-
-	// "pop" the {let} variables, as well as their usages.
-	// (this is necessary to handle shadowing of @params by {let} vars)
-	var letVarsGoingOutOfScope = tc.letVars[initialLetVars:]
-	var usedKeysToKeep, usedLets []string
-	for _, key := range tc.usedKeys[initialUsedKeys:] {
-		if contains(letVarsGoingOutOfScope, key) {
-			usedLets = append(usedLets, key)
-		} else {
-			usedKeysToKeep = append(usedKeysToKeep, key)
-		}
 	}
 
 	// check that any let variables leaving scope have been used
 	var unusedLetVarNames []string
-	for _, letVar := range letVarsGoingOutOfScope {
-		if !contains(usedLets, letVar) {
-			unusedLetVarNames = append(unusedLetVarNames, letVar)
+	for _, v := range tc.locals[initialLocals:] {
+		if v.isLet && !v.used {
+			unusedLetVarNames = append(unusedLetVarNames, v.name)
 		}
 	}
 	if len(unusedLetVarNames) > 0 {
 		panic(fmt.Errorf("{let} variables %q are not used.", unusedLetVarNames))
 	}
-
-	tc.usedKeys = append(tc.usedKeys[:initialUsedKeys], usedKeysToKeep...)
-	tc.letVars = tc.letVars[:initialLetVars]
+	tc.locals = tc.locals[:initialLocals]
 }
 
 func (tc *templateChecker) visitKey(key string) {
-	// record that this key was used in the template.
-	tc.usedKeys = append(tc.usedKeys, key)
-
-	// check that the key was provided by a @param or {let}
-	if !tc.checkKey(key) {
-		panic(fmt.Errorf("data ref %q not found. params: %v, let variables: %v",
-			key, tc.params, tc.letVars))
+	// a name refers to its innermost binding: a {let} or loop variable in
+	// scope shadows a @param of the same name, and a use counts for the
+	// binding it refers to.
+	if v := tc.lookupLocal(key); v != nil {
+		v.used = true
+		return
 	}
+	if key != "ij" && !contains(tc.params, key) {
+		panic(fmt.Errorf("data ref %q not found. params: %v, let variables: %v",
+			key, tc.params, tc.letVarNames()))
+	}
+	tc.usedKeys = append(tc.usedKeys, key)
 }
 
-// checkKey returns true if the given key exists as a param or {let} variable.
-func (tc *templateChecker) checkKey(key string) bool {
-	if key == "ij" {
-		return true
-	}
-	for _, param := range tc.params {
-		if param == key {
-			return true
+// lookupLocal returns the innermost {let} or loop variable of the given name
+// that is in scope, or nil.
+func (tc *templateChecker) lookupLocal(name string) *local {
+	for i := len(tc.locals) - 1; i >= 0; i-- {
+		if tc.locals[i].name == name {
+			return tc.locals[i]
 		}
 	}
-	for _, varName := range tc.letVars {
-		if varName == key {
-			return true
+	return nil
+}
+
+func (tc *templateChecker) letVarNames() []string {
+	var names []string
+	for _, v := range tc.locals {
+		if v.isLet {
+			names = append(names, v.name)
 		}
 	}
-	for _, varName := range tc.forVars {
-		if varName == key {
-			return true
-		}
-	}
-	return false
+	return names
 }
 
 func contains(slice []string, item string) bool {
